@@ -391,6 +391,7 @@ def run_shard(rec, seed, shard, tier):
     warnings.filterwarnings("ignore")
     if shard.get("i", 1) % 2 == 1:
         real.hostile_prelude(rec)  # a past: nothing the check decides may depend on it
+        real.toplevel_probes(rec, None, "after the hostile prelude")
     n = CASES[tier]
     for k in range(n):
         rng = random.Random(f"{seed}/C01/{shard['i']}/{k}")
